@@ -12,7 +12,7 @@ open OPM OPM.Wire OPM.Archive
   `start` · `row <now>` · `set <i> <val>` · `sim <i> <val>` · `stopsim <i>` · `mark <i> <text>` → `ok`
   `file` → text · `log` → rows · `read` → `ok <rows>` (reader on the model's file)
   row  = fields joined by `;`, the empty row is `E`;  rows = rows joined by `|`, no rows is `N`
-  val  = `n` | `f:<int>` (n/32) | `i:<int>` | `s:<text>` -/
+  val  = `n` | `f:<neg 0/1>:<num>:<den>` (exact float) | `i:<int>` | `s:<text>` -/
 
 def decRow (s : String) : Option (List (List Char)) :=
   if s = "E" then some [] else (s.splitOn ";").mapM (fun f => (decodeStr f).map String.toList)
@@ -26,7 +26,10 @@ def encRows (rs : List (List (List Char))) : String :=
 def decVal (s : String) : Option Val :=
   if s = "n" then some .none
   else match s.splitOn ":" with
-    | ["f", n] => n.toInt?.map .flt
+    | ["f", sg, n, d] =>
+      match parseBool sg, n.toNat?, d.toNat? with
+      | some sg, some n, some d => if d = 0 then none else some (.flt sg n d)
+      | _, _, _ => none
     | ["i", n] => n.toInt?.map .int
     | ["s", t] => (decodeStr t).map (fun x => .str x.toList)
     | _ => none
